@@ -1115,6 +1115,10 @@ class Model:
         if copy:
             self._nodes, self._vars = deepcopy((self._nodes, self._vars))
 
+            # the model holds copies, the original nodes stay reusable
+            for node in nodes:
+                _detach_model_seed_input(node)
+
         for node in self._nodes.values():
             if node.model:
                 raise RuntimeError(f"{repr(node)} can only be part of one model")
